@@ -37,4 +37,5 @@ VARIANTS = [
     V("N-trailing-test-guard-ne", "src/soundevent/arrays/dimensions.py", "    if coords.size > 0 and coords[-1] >= stop - step / 2:", "    if coords.size != 0 and coords[-1] >= stop - step / 2:", None),
     V("trailing-test-against-start", "src/soundevent/arrays/dimensions.py", "coords[-1] >= stop - step / 2", "coords[-1] >= start - step / 2", "R16.1"),
     V("N-upper-clamp-by-len-of-index", "src/soundevent/arrays/dimensions.py", "        return arr.sizes[dim]\n", "        return len(arr.indexes[dim])\n", None),
+    V("time-range-rejects-samplerate-only-calls", "src/soundevent/arrays/dimensions.py", '        if samplerate is None:\n            raise ValueError("Either step or samplerate must be provided.")', '        if samplerate is not None:\n            raise ValueError("Either step or samplerate must be provided.")', "R16.1"),
 ]
